@@ -20,34 +20,42 @@ def showPred : Pred → String
   | .recursion m => s!"err:recursion\t{m.depthHW}\t{m.nativeHW}"
   | .other w => s!"model:{w}\t0\t0"
 
-def predict (shape : String) (limit budget : Nat) : String :=
+def predict (shape : String) (limit budget : Nat) : Option Pred :=
   let b : Option Nat := if budget = 0 then none else some budget
   match shape.splitOn ":" with
   | ["N", spec] =>
     match spec.toList with
-    | [c, n] => showPred (predictNoise c n limit)
-    | _ => "bad-case\t0\t0"
+    | [c, n] => some (predictNoise c n limit)
+    | _ => none
   | [fam, spec] =>
     match fam.toList, parseEdges spec with
     | [f], some edges =>
-      if f = 'T' ∨ f = 'M' ∨ f = 'B' then showPred (predictCycle f edges limit b) else "bad-case\t0\t0"
-    | _, _ => "bad-case\t0\t0"
-  | ["S", n, _v] =>
-    match n.toNat? with
-    | some n => showPred (predictSuper n limit)
-    | none => "bad-case\t0\t0"
-  | ["L", d, _v] =>
-    match d.toNat? with
-    | some d => showPred (predictLoop d limit)
-    | none => "bad-case\t0\t0"
-  | _ => "bad-case\t0\t0"
+      if f = 'T' ∨ f = 'M' ∨ f = 'B' then some (predictCycle f edges limit b) else none
+    | _, _ => none
+  | ["S", n, _v] => n.toNat?.map (predictSuper · limit)
+  | ["L", d, _v] => d.toNat?.map (predictLoop · limit)
+  | _ => none
+
+/-- `Template::new_state()` + `State::render_block`: the context starts without a frame and there
+    is no root activation, so every depth is one less than in a render of the same program: the
+    run with limit `L` behaves like a render with limit `L + 1`, marks shifted by one -/
+def unshift : Pred → Pred
+  | .ok m => .ok ⟨m.depthHW - 1, m.nativeHW - 1⟩
+  | .recursion m => .recursion ⟨m.depthHW - 1, m.nativeHW - 1⟩
+  | p => p
 
 def handle (line : String) : String :=
   let case := (line.splitOn "\t").head!
   match case.trimAscii.toString.splitOn " " with
-  | [shape, limit, budget, _thread] =>
+  | [shape, limit, budget, thread] =>
     match limit.toNat?, budget.toNat? with
-    | some l, some b => s!"{case}\t{predict shape (setRecursionLimit l) b}"
+    | some l, some b =>
+      let l' := setRecursionLimit l
+      let r := if thread.endsWith "+state" then (predict shape (l' + 1) b).map unshift
+               else predict shape l' b
+      match r with
+      | some p => s!"{case}\t{showPred p}"
+      | none => s!"{case}\tbad-case\t0\t0"
     | _, _ => s!"{case}\tbad-case\t0\t0"
   | _ => s!"{case}\tbad-case\t0\t0"
 
